@@ -491,6 +491,17 @@ func generate(seed int64, thorough bool) []string {
 		o = append(o, genIv(r)...)
 		o = append(o, genSl(r))
 	}
+	// consumer side of the commit-wait clause: real Commit, modes x causal x constraint ahead of / behind PD
+	for rep := 0; rep < mul && !conc; rep++ {
+		for mode := 0; mode < 3; mode++ {
+			for causal := 0; causal < 2; causal++ {
+				for _, ahead := range []int64{-100, 0, 25 + r.Int63n(30), 70 + r.Int63n(30)} {
+					o = append(o, ln("tx", strconv.Itoa(mode), strconv.Itoa(causal), i(ahead), "1388", strconv.Itoa(1+r.Intn(3))))
+				}
+				o = append(o, ln("tx", strconv.Itoa(mode), strconv.Itoa(causal), "c8", "a", "2")) // 200ms ahead, 10ms allowed: must fail
+			}
+		}
+	}
 	o = append(o, ln("mo", "200"))
 	nb := 2
 	if thorough {
@@ -501,6 +512,7 @@ func generate(seed int64, thorough bool) []string {
 			strconv.Itoa(250+250*(mul/8)), strconv.Itoa([]int{300, 1000, 5000, 600000, 2000000}[r.Intn(5)])))
 		o = append(o, ln("st", fmt.Sprint(seed*100+int64(c)), strconv.Itoa(2+r.Intn(14)), strconv.Itoa(200*mul)))
 		// concurrent first users of fresh txn scopes: rounds, wall-clock effort budget (ms)
+		o = append(o, ln("rf", fmt.Sprint(seed*100+int64(c)), strconv.Itoa(40*mul), strconv.Itoa(1+c%3)))
 		o = append(o, ln("fs", fmt.Sprint(seed*100+int64(c)), strconv.Itoa(4000*mul), strconv.Itoa(1500+500*(mul/8))))
 	}
 	_ = time.Now
